@@ -135,11 +135,12 @@ example : assocGet (exec Sys.init 0 (.root "v" "n" 1 0 true)).1.spans "v" = some
     exit — no operation ever returns a report with records, an extracted context, an `elapsed()`
     value, or runs a property closure passed to a span handle (`with_properties` /
     `add_properties`).  Every span handle is a no-op and no scope carries a token throughout
-    (invariant `NoRep`, `Lemmas/NoReporter*.lean`).  `enter_with_parents` is excluded: over no-op
-    parents it yields a live span with an empty token whose closures do run (nothing is ever
-    delivered for it either: `C05_only_sampled_roots_delivered`). -/
+    (invariant `NoRep`, `Lemmas/NoReporter*.lean`).  This includes `enter_with_parents`: over no-op
+    parents it yields a no-op span (defect D16, repaired in /repo; before the repair it yielded a
+    live span with an empty token whose closures ran and whose `elapsed()` was `Some`, and this
+    theorem had to exclude the operation). -/
 theorem C16_no_reporter_program_inert (p : Program)
-    (hp : ∀ x ∈ p, (∀ c, x.2 ≠ .setReporter c) ∧ ∀ v n ps, x.2 ≠ .childN v n ps) :
+    (hp : ∀ x ∈ p, ∀ c, x.2 ≠ .setReporter c) :
     ∀ x ∈ p.zip (run Sys.init p).2,
       (∀ rs, x.2 ≠ .report (some rs)) ∧ (∀ c, x.2 ≠ .ctx (some c)) ∧ x.2 ≠ .elapsed true ∧
       ((∃ v cl, x.1.2 = .withProps v cl ∨ x.1.2 = .addProps v cl) → x.2 ≠ .closure true) :=
